@@ -89,7 +89,8 @@ pub struct NetInner {
     pub pending_join: Vec<PendingJoin>,
     pub links: Vec<Link>,
     pub next_generation: BTreeMap<(u32, u32), u32>,
-    /// ids of nodes currently alive (for discover_leader)
+    /// (id, term) of nodes currently in the Leader role (for discover_leader)
+    pub leader_directory: Vec<(u32, u64)>,
     pub opened: u64,
 }
 
@@ -216,7 +217,16 @@ impl<T: TypeConfig> Transport<T> for SimTransport<T> {
         _rpc_enable_compression: bool,
         _membership: Arc<MOF<T>>,
     ) -> Result<Vec<LeaderDiscoveryResponse>> {
-        unsupported("discover_leader")
+        // answered from the directory the harness maintains: the nodes currently in the Leader role
+        let g = self.net.0.lock().unwrap();
+        Ok(g.leader_directory
+            .iter()
+            .map(|(id, term)| LeaderDiscoveryResponse {
+                leader_id: *id,
+                leader_address: format!("127.0.0.1:{}", 9000 + id),
+                term: *term,
+            })
+            .collect())
     }
 
     async fn send_append_request(
